@@ -23,7 +23,7 @@ ASSUMPTIONS = ['datagram network fully simulated (no sockets); one-way delay <= 
                'virtual clock: all deadlines in virtual seconds; wall-clock watchdog => inconclusive',
                'placement is judged as stated (stored on the K nodes closest to the hash, known finding for larger networks); findability is judged independently and strictly',
                'hostile repliers are scripted from a fixed catalogue; they answer every request they receive']
-REQUIRED_HITS = ['H1.lookup_found_announcer', 'H2.checked', 'H3.before_expiry_found', 'H3.after_expiry_gone', 'H4.multi_announcer_all_found',
+REQUIRED_HITS = ['H1.lookup_found_announcer', 'H2.checked', 'H3.before_expiry_found', 'H3.after_expiry_gone', 'H3.renewed_found_after_first_expiry', 'H4.multi_announcer_all_found',
                  'H4.page_sweep_checked', 'T1.lookup_terminated', 'T1.with_loss', 'T1.with_dead', 'T1.with_hostile', 'T2.node_results_checked',
                  'T2.value_results_checked', 'net.duplicates_delivered', 'net.reordered', 'hostile.garbage', 'hostile.endless_pages',
                  'hostile.reserved_ips', 'hostile.own_id_contacts', 'hostile.bad_compact', 'size.2', 'size.40']
@@ -46,7 +46,7 @@ def gen_cases(rng, tier, shard, nshards):
     fams.append([{'fam': 'fault', 'seed': rng.getrandbits(48), 'n': rng.choice([6, 10, 16, 24]),
                   'hostile': [HOSTILE[(i * 3 + shard + j) % len(HOSTILE)] for j in range(rng.choice([1, 2, 3]))],
                   'loss': rng.choice([0, 0, 0.1, 0.3, 0.6]), 'dead': rng.choice([0, 0, 1, 3])} for i in range(20 if q else 600)])
-    fams.append([{'fam': 'expiry', 'seed': rng.getrandbits(48), 'n': rng.choice([4, 6, 9])} for _ in range((1 if shard < 8 else 0) if q else 6)])
+    fams.append([{'fam': 'expiry', 'seed': rng.getrandbits(48), 'n': rng.choice([3, 4, 6] if q else [4, 6, 9])} for _ in range((1 if shard < 6 else 0) if q else 6)])
     while any(fams):
         for f in fams:
             if f:
@@ -479,6 +479,37 @@ async def _expiry(rec, case, loop):
                 rec.violation('C12/H3/announcement-still-returned-after-24h', f'at age 24 h + 1 s node {s_i} still gets the announcer (network of {n})', {'n': n})
                 return
             rec.hit('H3.after_expiry_gone')
+        # ---- renewal (added after seeded break C12-A): a re-announcement from the same node makes the record young again.
+        # announce at t0, re-announce at t0 + 12 h: at (t0 + 24 h + 1 s) the newest announcement is 12 h old -> must be found;
+        # at (re-announce + 24 h + 1 s) it is gone.
+        blob2 = hashlib.sha384(b'renew%d' % r.getrandbits(40)).digest()
+        t0 = loop.time()
+        st1 = await nodes[a_i].announce_blob(blob2.hex())
+        t0_last = loop.time()
+        await asyncio.sleep(t0 + 12 * 3600 - loop.time())
+        t1 = loop.time()
+        st2 = await nodes[a_i].announce_blob(blob2.hex())
+        t1_last = loop.time()
+        if st1 and st2:
+            await asyncio.sleep(t0_last + 86400 + 1 - loop.time())
+            missed = []
+            for s_i in others:
+                found, done, probes, dt, _ = await value_lookup(loop, nodes[s_i], blob2)
+                if not any(p.address == pub_ip(a_i) for p in found):
+                    missed.append(s_i)
+            if missed:
+                rec.violation('C12/H3/renewed-announcement-lost-24h-after-the-first-one',
+                              f're-announced 12 h ago (first announced 24 h + 1 s ago): {len(missed)} of {len(others)} nodes no longer find the announcer '
+                              f'(network of {n})', {'n': n, 'missed': len(missed)})
+                return
+            rec.hit('H3.renewed_found_after_first_expiry')
+            await asyncio.sleep(t1_last + 86400 + 1 - loop.time())
+            for s_i in others:
+                found, done, probes, dt, _ = await value_lookup(loop, nodes[s_i], blob2)
+                if any(p.address == pub_ip(a_i) for p in found):
+                    rec.violation('C12/H3/announcement-still-returned-after-24h', f'24 h + 1 s after the re-announcement node {s_i} still gets the announcer', {'n': n})
+                    return
+            rec.hit('H3.renewed_gone_after_renewal_expiry')
         rec.case(['expiry', n], sample={'family': 'expiry', 'nodes': n, 'stored_to': len(stored_to), 'virtual_hours': round((loop.time() - t_first) / 3600, 2),
                                          'datagrams': net.sent})
     finally:
